@@ -283,6 +283,21 @@ class Interp:
             base = "I" + base      # integer division truncates: not a ring operation (never a rational-function quotient)
         # exact constant folding with the float constants 0 and 1 (ring semantics; NaN/inf propagation is not modelled anywhere)
         z, o = ("f", 0.0), ("f", 1.0)
+        if isinstance(a, tuple) and a[0] == "f" and isinstance(b, tuple) and b[0] == "f" and ty in ("f32", "f64") and base in ("Add", "Sub", "Mul", "Div"):
+            # two float constants: fold when the result is exact in the operand type (no rounding is hidden)
+            import struct
+            from fractions import Fraction as _Fr
+            try:
+                x, y = _Fr(a[1]), _Fr(b[1])
+                r = {"Add": lambda: x + y, "Sub": lambda: x - y, "Mul": lambda: x * y, "Div": lambda: x / y if y else None}[base]()
+                if r is not None:
+                    fv = float(r)
+                    if ty == "f32":
+                        fv = struct.unpack("f", struct.pack("f", fv))[0]
+                    if _Fr(fv) == r:
+                        return ("f", fv)
+            except (OverflowError, ValueError, struct.error):
+                pass
         if "WithOverflow" not in op:
             if base == "Mul" and (a == z or b == z) and ty in ("f32", "f64"):
                 return z
@@ -324,6 +339,21 @@ class Interp:
                 return v & ((1 << bits) - 1)
             if rv["ck"] in ("PointerCoercion", "PtrToPtr", "Transmute", "Subtype"):
                 return v
+            if rv["ck"] == "IntToFloat" and isinstance(v, int):
+                fb = INT_BITS.get(rv["from"], 64)
+                if rv["from"].startswith("i") and (v >> (fb - 1)) & 1:
+                    v = v - (1 << fb)
+                return ("f", float(v))
+            if rv["ck"] == "FloatToInt":
+                hook = getattr(self, "float_to_int", None)
+                if hook is not None:
+                    r = hook(v, rv["to"])
+                    if r is not None:
+                        return r
+                if isinstance(v, tuple) and v[0] == "f" and v[1] == v[1] and abs(v[1]) != float("inf"):
+                    bits = INT_BITS.get(rv["to"], 64)
+                    lo, hi = (-(1 << (bits - 1)), (1 << (bits - 1)) - 1) if rv["to"].startswith("i") else (0, (1 << bits) - 1)
+                    return max(lo, min(hi, int(v[1]))) & ((1 << bits) - 1)
             if is_sym(v) or (isinstance(v, tuple) and v[0] == "f"):
                 return ("symop", "cast:" + rv["to"], v, None)
             return UNKNOWN
@@ -755,6 +785,20 @@ def m_unwrap(it, args, callee, depth):
     return o[3][0]
 
 
+def m_ord_minmax(which):
+    def f(it, args, callee, depth):
+        a, b = deref_all(it, args[0]), deref_all(it, args[1])
+        if isinstance(a, int) and isinstance(b, int):
+            ty = ((callee or {}).get("args") or ["usize"])[0]
+            bits = INT_BITS.get(ty, 64)
+
+            def sg(x):
+                return x - (1 << bits) if ty.startswith("i") and (x >> (bits - 1)) & 1 else x
+            return (min if which == "min" else max)(a, b, key=sg)
+        return NotImplemented
+    return f
+
+
 def m_reverse(it, args, callee, depth):
     o = deref_all(it, args[0])
     if isinstance(o, tuple) and o[0] == "adt" and o[1] == "core::cmp::Ordering":
@@ -863,6 +907,8 @@ STD_MODELS = [
     ("Option::<T>::expect", m_unwrap),
     ("Option::<T>::is_some", m_is_some),
     ("Option::<T>::is_none", m_is_none),
+    ("core::cmp::Ord::min", m_ord_minmax("min")),
+    ("core::cmp::Ord::max", m_ord_minmax("max")),
     ("core::cmp::Ordering::reverse", m_reverse),
     ("core::cmp::Ordering::is_lt", m_ord_pred("is_lt")),
     ("core::cmp::Ordering::is_gt", m_ord_pred("is_gt")),
